@@ -444,8 +444,10 @@ func init() { vfRegister("VF_C04_tag_yaml", VF_C04_tag_yaml) }
 // VF_C04_tag_yaml: a tag is a string (priority 0) or a mapping with a string
 // name and an optional int priority that is kept unchanged.
 func VF_C04_tag_yaml() {
-	v := vfAny("tag", 2)
-	if vfBool("structured") {
+	var v interface{}
+	if !vfBool("structured") {
+		v = vfAny("tag", 2)
+	} else {
 		m := map[string]interface{}{}
 		if vfBool("has.name") {
 			m["name"] = vfAny("name", 0)
